@@ -203,7 +203,9 @@ class CharacterClass(MutableSet[int]):
                     # XSD 1.1 supports Is prefix to match Unicode blocks
                     if not self.xsd_version or not part[3:].startswith('Is'):
                         raise
-                    self.positive |= UnicodeSubset([(0, maxunicode + 1)])
+                    if part.startswith('\\p'):
+                        # An unknown block matches any character
+                        self.positive |= UnicodeSubset([(0, maxunicode + 1)])
                 else:
                     if part.startswith('\\p'):
                         self.positive |= subset
